@@ -29,10 +29,10 @@ func init() {
 			"the remaining cases are random vesting histories (as C05). Vesting messages go through signed DeliverTx; the signature module's messages are not routable on this tree and are executed on its real message server on a branched deliver-state context written back on success. " +
 			"Oracle: field-wise diff of every pre-existing auth account (type, address, pubkey, account number, sequence, vesting fields); permitted: signer's sequence/pubkey, sender's own original_vesting after a successful split/move. " +
 			"Non-trivial: the target existed before and the message reached its handler (was not rejected by stateless validation or the ante handler). Distinct by (combination, seed).",
-		Assumptions: []string{"exhaustive refers to the message x target-state x signer dimension; payload values are sampled"},
-		Cases:       func(t string) int { return c09Combos()*tierN(t, 2, 40) + tierN(t, 24, 1500) },
+		Assumptions:   []string{"exhaustive refers to the message x target-state x signer dimension; payload values are sampled"},
+		Cases:         func(t string) int { return c09Combos()*tierN(t, 2, 40) + tierN(t, 24, 1500) },
 		MinNontrivial: func(t string) int { return tierN(t, 60, 1000) },
-		Run:         runC09,
+		Run:           runC09,
 	})
 }
 
@@ -193,6 +193,8 @@ func (e *vestEnv) execSig(msg sdk.Msg) (reached, accepted bool, panicErr *chain.
 }
 
 func execSigOn(n *chain.Node, msg sdk.Msg) (reached, accepted bool, panicErr *chain.PanicError) {
+	n.RecordMsg("sig", msg)
+	defer func() { n.DigestNote("sig", accepted, nil) }()
 	func() {
 		defer func() {
 			if r := recover(); r != nil {
